@@ -1,10 +1,10 @@
 """Per-property metadata for MANIFEST.json."""
 
-HOOK_COMMITS = ["f2e7017"]
+HOOK_COMMITS = ["f2e7017", "f6e5a67"]
 
 ENGINES = [
     {"name": "core-trace", "path": "specs/core/CoreTrace.tla",
-     "serves_properties": ["C01", "C02", "C03", "C04", "C05", "C06", "C23"],
+     "serves_properties": ["C01", "C02", "C03", "C04", "C05", "C06", "C07", "C08", "C09", "C10", "C11", "C23"],
      "kind_free_text": "TLA+ monitor (trace specification) over Sem.tla reference semantics, evaluated by TLC on traces "
                        "recorded from real salsa by the programs-as-data harness"},
 ]
@@ -31,6 +31,14 @@ META = {
     "C04": seq("UntrackedReexecuted predicate at every consumption of a value whose last execution was untracked.", "§7 C04"),
     "C05": seq("LRU model (request order, capacity) in the monitor; eviction observed through Drop of the cached value.", "§7 C05"),
     "C06": seq("Struct identity stability/distinctness and discard obligations in the monitor.", "§7 C06"),
+    "C07": seq("Reads through struct / interned handles are compared with the from-scratch semantics; a validated memo must "
+               "not depend on a reclaimed struct or interned value.", "§7 C07"),
+    "C08": seq("Per-revision canonical map (value <-> handle), field round trip and identity retention in the monitor "
+               "(sequential part; the concurrent part is added with the shuttle driver).", "§7 C08"),
+    "C09": seq("At every DidReuseInternedValue the monitor's copy of the slot must be LOW, collectable, primed and stale "
+               "w.r.t. the active-revision queue (hook H5).", "§7 C09"),
+    "C10": seq("Specified values vs the specify rules of Sem.tla; body of a validly specified key must not run.", "§7 C10"),
+    "C11": seq("accumulated() results compared with AccumRef (depth-first, first-call order) of Sem.tla.", "§7 C11"),
     "C23": dict(seq("Value-lifetime discipline only (no raw-memory claims): no drop while a reference of the same revision "
                     "is held, retained references keep their value, no double drop, nothing leaked at database drop.",
                     "§7 C23, §8"), level="exploration"),
